@@ -14,7 +14,7 @@ LEVEL = "exploration"
 RULE = (
     "Operands are canonical strided intervals (stride 0 iff singleton, stride divides the span, wrapping forms included): ALL of them at "
     "widths 1-3 (4 / 24 / 136 forms) and every PAIR for binary operations, at width 4 (736 forms) all unary/parametrised cases and a "
-    "seeded sample (quick) or all (thorough) of the 541 696 pairs per operation, plus Hypothesis-generated intervals at widths 8/16/32/64 "
+    "seed-selected third (quick) or all (thorough) of the 541 696 pairs per operation, plus Hypothesis-generated intervals at widths 8/16/32/64 "
     "(bounds biased to 0, max, the poles +-k; strides 1, 2, 3, 2^k, odd; small and huge cardinalities). Operations through the entry "
     "points BackendVSA uses: + - * // (unsigned) sdiv % unary- ~ & | ^ << >> (arithmetic) LShR with interval shift amounts, zero_extend, "
     "sign_extend, extract(hi,lo) for every legal pair, concat, == != ULT ULE UGT UGE SLT SLE SGT SGE. Oracle: for every x in gamma(a), "
@@ -187,7 +187,7 @@ def shards(tier, seed):
     out.append({"mode": "enum-unary", "bits": 4})
     if tier == "quick":
         for i, op in enumerate(ALL_PAIR_OPS):
-            out.append({"mode": "enum-pairs", "bits": 4, "ops": [op], "part": (seed * 7 + i) % 12, "parts": 12})
+            out.append({"mode": "enum-pairs", "bits": 4, "ops": [op], "part": (seed * 7 + i) % 3, "parts": 3})
     else:
         for op in ALL_PAIR_OPS:
             for part in range(4):
@@ -215,6 +215,7 @@ def _enum_pairs(shard, ctx):
     n = shard["bits"]
     forms = sg.canonical(n)
     objs = [sg.make(n, t) for t in forms]
+    objs_b = [sg.make(n, t) for t in forms]  # second operands are separate objects: equal names mean "the same variable" to eq()
     mems = [sg.members(sg.gamma_mask(o)) for o in objs]
     ntags = [_nontrivial_tag(n, t) for t in forms]
     pairs_total = 0
@@ -255,7 +256,7 @@ def _enum_pairs(shard, ctx):
                     want |= R[x][j]
                 fail = None
                 try:
-                    r = fn(objs[i], objs[j])
+                    r = fn(objs[i], objs_b[j])
                 except RecursionError:
                     fail = (f"{op}:exception:RecursionError", {"result": "exc:RecursionError"})
                     r = None
